@@ -46,6 +46,7 @@ func newRegistry() *Registry {
 		"(declare-datatypes ((Slice 0)) (((mk-slice (s-arr Int) (s-off "+bv64+") (s-len "+bv64+") (s-cap "+bv64+")))))",
 		"(declare-datatypes ((Iface 0)) (((mk-iface (i-tag Int) (i-ref Int) (i-str String) (i-bv "+bv64+")))))",
 		"(declare-fun errclass (Int) (_ BitVec 32))",
+		"(declare-fun tag-is-ptr (Int) Bool)",
 		"(assert (= (errclass 0) #x00000000))",
 	)
 	return r
@@ -246,6 +247,9 @@ func (r *Registry) tagOf(t types.Type) int {
 		}
 	}
 	r.tags = append(r.tags, t)
+	// reflect.Kind == Pointer of the dynamic type (used by the assumed contract of reflect.ValueOf)
+	_, isPtr := t.Underlying().(*types.Pointer)
+	r.header = append(r.header, fmt.Sprintf("(assert (= (tag-is-ptr %d) %v))", len(r.tags), isPtr))
 	return len(r.tags)
 }
 
